@@ -3,7 +3,7 @@
    Naming: plain = full strength; _guarded = for every input outside a narrow decidable class
    (the class is a finding confirmed on the real code); _refuted = the unguarded statement is
    false, with a witness evaluated by the kernel; _partial = one direction / one case only. *)
-From HV Require Import Lib.Base C12.Model C12.Spec C12.ZoneProofs C12.InvProofs C12.UpdProofs C12.WfDec.
+From HV Require Import Lib.Base C12.Model C12.Spec C12.ZoneProofs C12.InvProofs C12.UpdProofs C12.WfDec C12.RfcProofs.
 Open Scope N_scope.
 
 (* ---------------------------------------------------------------------------------------- *)
@@ -177,6 +177,35 @@ Qed.
 Print Assumptions C12_soa_update_rfc1982_refuted.
 
 (* ---------------------------------------------------------------------------------------- *)
+(* accepted contents are RFC 2136 3.4.2                                                     *)
+(* ---------------------------------------------------------------------------------------- *)
+
+(* one Update RR outside the known classes (Spec.Known_rr: decidable in the zone and the RR)
+   leaves, key by key, the records that the pseudocode of 3.4.2.7 (Spec.rfc_rr, written
+   independently of the model, SOA by RFC 1982) leaves *)
+Theorem C12_update_rr_is_rfc_guarded : forall o z u z' b,
+  WF o z -> Known_rr o z u = false -> apply_rr o z u = Some (z', b) -> same_records z' (rfc_rr o z u).
+Proof. exact apply_rr_is_rfc. Qed.
+Print Assumptions C12_update_rr_is_rfc_guarded.
+
+(* the whole update section, RR by RR against the zone left by the RRs before it *)
+Theorem C12_update_section_is_rfc_guarded : forall o us z,
+  WF o z -> all_goodb o z us = true -> steps_rfc o z us.
+Proof. exact update_section_is_rfc. Qed.
+Print Assumptions C12_update_section_is_rfc_guarded.
+
+(* the classes are real: e.g. the RR of C12-ttl-not-replaced is in Known_rr and the model
+   differs from the RFC there *)
+Theorem C12_update_is_rfc_refuted :
+  exists o z u z' b, WF o z /\ apply_rr o z u = Some (z', b) /\ ~ same_records z' (rfc_rr o z u).
+Proof.
+  exists o_ex, (z_ex 10), (mkRR [3; 2; 1] cIN 60 tA (DGen 1)). eexists. eexists.
+  split; [apply wfb_sound; vm_compute; reflexivity|]. split; [vm_compute; reflexivity|].
+  intros H. specialize (H ([3; 2; 1], tA)). vm_compute in H. discriminate.
+Qed.
+Print Assumptions C12_update_is_rfc_refuted.
+
+(* ---------------------------------------------------------------------------------------- *)
 (* non-vacuity of the hypotheses                                                            *)
 (* ---------------------------------------------------------------------------------------- *)
 
@@ -201,6 +230,14 @@ Proof. cbv zeta. split; vm_compute; reflexivity. Qed.
 
 (* a changing message without SOA RDATA at the top serial, release build: wraps to 0, which is
    "advanced" in RFC 1982 arithmetic (C12_changed_implies_serial_advanced_guarded) *)
+(* an update section of all four forms of table 3.4.2.6 outside the known classes *)
+Example C12_ex_rfc :
+  let us := [mkRR [3; 2; 1] cIN 60 tA (DGen 2); mkRR [9; 2; 1] cIN 60 tCNAME (DCname [3; 2; 1]);
+             mkRR [3; 2; 1] cNONE 0 tA (DGen 1); mkRR [6; 2; 1] cANY 0 tCNAME DNone;
+             mkRR [9; 2; 1] cANY 0 tANY DNone; mkRR o_ex cIN 300 tSOA (DSoa 12 8)] in
+  all_goodb o_ex (z_ex 10) us = true /\ pre_scan o_ex us = NoError.
+Proof. cbv zeta. split; vm_compute; reflexivity. Qed.
+
 Example C12_ex_wrap :
   let m := sign [mkRR [3; 2; 1] cIN 60 tA (DGen 2)] in
   soa_serials (m_upd m) = [] /\ snd (update false o_ex (z_ex 4294967295) m) = Rc NoError /\
